@@ -60,6 +60,20 @@ def cost(tier, seed, info):
             suspects.append((f, 'work units grow x%.1f for x%.1f input (lines %d, limb %d, copied %d)' % (ratio, lin, b['lines'], b['limb'], b['copy'])))
         if b['result'].startswith('esc'):
             out['failures'].append(Failure({'family': f, 'n': 1024, 'mode': 'work'}, 'escape', 'family %s: %s' % (f, b['result'])))
+    # (1b) tiny blocks that declare something large: neither time nor memory may follow the declared number
+    for f in cost_probe.TINY:
+        for n in ((1 << 20, 1 << 26) if tier == 'quick' else (1 << 16, 1 << 20, 1 << 24, 1 << 26, 1 << 28)):
+            r = _run('cost_probe.py', [f, n, 'tiny'])
+            out['evaluations'] += 1
+            if 'error' in r:
+                out['failures'].append(Failure({'family': f, 'n': n, 'mode': 'tiny'}, 'probe-crash', 'cost probe crashed on %s: %s' % (f, r['error']))); break
+            out['distinct_nontrivial'] += 1
+            out['summary'].setdefault('tiny', {})[f + '/%d' % n] = {'len': r['len'], 'time': round(r['time'], 4), 'peak': r['peak'], 'result': r['result']}
+            if r['peak'] > (2 << 20) or r['time'] > 0.5 or r['result'].startswith('esc'):
+                out['failures'].append(Failure({'family': f, 'n': n, 'mode': 'tiny'}, 'cost-follows-declared-size',
+                                               'family %s: a block of %d octets that declares %d costs %.3f s CPU and %d octets of memory (%s)' % (
+                                                   f, r['len'], n, r['time'], r['peak'], r['result'])))
+                break
     # (2) CPU time: modest sizes in the quick tier, large in the thorough tier / for suspects
     sizes = (1 << 12, 1 << 14, 1 << 16, 1 << 18) if tier == 'quick' else (1 << 12, 1 << 14, 1 << 16, 1 << 18, 1 << 20)
     def timed(f, szs, reps=3, mode='time'):
@@ -126,6 +140,13 @@ def cost(tier, seed, info):
 
 def cost_replay(p):
     f = p['family']
+    if p.get('mode') == 'tiny':
+        r = _run('cost_probe.py', [f, p['n'], 'tiny'])
+        if 'error' in r:
+            return 'probe crashed: %s' % r
+        if r['peak'] > (2 << 20) or r['time'] > 0.5 or r['result'].startswith('esc'):
+            return 'family %s: a block of %d octets that declares %d costs %.3f s CPU and %d octets of memory (%s)' % (f, r['len'], p['n'], r['time'], r['peak'], r['result'])
+        return None
     if p.get('mode') == 'work':
         r = _run('cost_probe.py', [f, p.get('n', 1024), 'work'])
         return ('family %s: %s' % (f, r)) if r.get('result', '').startswith('esc') or 'error' in r else None
